@@ -216,6 +216,9 @@ func vAssert(id string, c bool) {
 		vx.failed = append(vx.failed, id)
 	}
 }
+// vAssertModel (native): facts only the model observes cannot be evaluated here
+func vAssertModel(id string, c bool) {}
+
 func vReach(label string, c bool) {
 	if c {
 		vx.reached = append(vx.reached, label)
@@ -316,11 +319,31 @@ func vBlob(name string) []byte {
 		fw, _ := flate.NewWriter(&buf, flate.BestSpeed)
 		fw.Write(payload)
 		fw.Close()
+		// the solver may have fixed the length of the compressed presentation: bytes after the final block are
+		// not part of the stream (the inflater stops there), so the stream can be padded to that length
+		if want := vxI64(n + ".len"); want > int64(buf.Len()) && want <= 1<<27 {
+			buf.Write(make([]byte, int(want)-buf.Len()))
+		}
 	}
 	return buf.Bytes()
 }
 
-func vDecodeOK(b []byte) bool { return len(b) > 0 && b[0] == 'Y' }
+// vDecodeOK (native): the verdict the model gave for a message of this length, else "starts with Y"
+func vDecodeOK(b []byte) bool {
+	if len(b) == 0 {
+		return false
+	}
+	for k := 0; k < 8; k++ {
+		if _, ok := vx.inputs[fmt.Sprintf("decoder.%d.len", k)]; !ok {
+			break
+		}
+		if vxI64(fmt.Sprintf("decoder.%d.len", k)) == int64(len(b)) {
+			v, _ := vx.inputs[fmt.Sprintf("decoder.%d.ok", k)].(bool)
+			return v
+		}
+	}
+	return len(b) > 0 && b[0] == 'Y'
+}
 
 func vxInflate(b []byte) ([]byte, error) { return io.ReadAll(flate.NewReader(bytes.NewReader(b))) }
 
